@@ -32,7 +32,7 @@ CHECKS = {
     "C03": {
         "runs": [
             {"harness": ["internal/vsess.VerifC03Pure"], "pkgs": ["./internal/vsess"], "fuel": 8000000,
-             "params_quick": {"dive": 140, "maxcalldepth": 3}, "params_thorough": {"dive": 300, "maxcalldepth": 130},
+             "params_quick": {"dive": 140, "maxcalldepth": 3, "sweepdepth": 130}, "params_thorough": {"dive": 300, "maxcalldepth": 130, "sweepdepth": 260},
              "covers": {"VerifC03Pure": ["done"]}},
         ],
         "bound_text": "6 side-effect-free functions (arithmetic, loop, closure created and called, closure observing a later update, array building loop, possibly-unassigned local) x 6 histories (none, recursion 140 (thorough 300) deep, loops recycling contexts at two levels, failed statement, plain calls, abandoned generator) x 6 placements (again, twice in one array, loop body, generator, call depth <= 2 (thorough <= 129), while body); arguments and constants symbolic",
